@@ -89,6 +89,15 @@ def main(argv):
     slice_s = h.slice_s if hasattr(h, 'slice_s') else 6.0
     deadline = t0 + budget
 
+    # E2 witnesses (language difference found by the regex solver): concrete replays
+    for u, cin in pre.get('replay', []):
+        r = base._WORKER.call({'prop': prop, 'unit': u, 'inp': cin})
+        if 'error' in r:
+            mismatches.append({'unit': u, 'input': cin, 'worker_error': r['error']})
+        elif not r['agree']:
+            violations.append({'unit': u, 'input': cin, 'real': r['real'], 'exp': r['exp'], 'via': 'E2 witness'})
+    pre.pop('replay', None)
+
     ctx = mp.get_context('spawn')
     with cf.ProcessPoolExecutor(max_workers=NPROC, mp_context=ctx, initializer=_pool_init,
                                 initargs=(True,)) as ex:
